@@ -369,7 +369,10 @@ func c12c(c *Ctx) {
 		m, ok := f.IsCallResult(h.Args[0], 0, Callee{"crypto/x509", "", "MarshalPKIXPublicKey"})
 		return ok && len(m.Args) == 1 && isCfgKey(m.Args[0])
 	}
-	guard("log ID == hash(configured key)", g.EdgesImplying(func(a Atom) bool { rel, ok := cmpRel(a, sctField("LogID", "KeyID"), isLogID); return ok && rel == relEQ }), "an SCT naming another log can be confirmed")
+	guard("log ID == hash(configured key)", g.EdgesImplying(func(a Atom) bool {
+		rel, ok := cmpRel(a, sctField("LogID", "KeyID"), isLogID)
+		return ok && rel == relEQ
+	}), "an SCT naming another log can be confirmed")
 	// extensions, entry
 	pe := f.Calls(Callee{pkgRoot, "", "ParseExtensions"})
 	var extObj types.Object
